@@ -11,7 +11,11 @@ THEOREMS = ["C01_fold_sound", "C01_fold_sound_root", "C01_fold_accepts", "C01_fo
             # layers 2-3: the executable model of the optimiser performs these rewrites
             "C01_passesN_preserve_nodepth", "applyMatch_loop_is_step", "applyMatch_sub_is_step", "pass_loop_is_step",
             "pass_is_step", "optimize_loop_chain", "optimize_chain", "C01_optimize_preserves_partial",
-            "C01_optimize_preserves", "C01_fold_pass_decreases"]
+            "C01_optimize_preserves", "C01_fold_pass_decreases",
+            # termination: every continuing pass decreases (totalEvents, playedEvents); the stack analysis stays
+            # within its recursion budget; the whole run does not end in OErr.fuel
+            "C01_extract_pass_decreases", "C01_pass_decreases", "pass_i16", "optimize_no_fuel", "C01_analyzeStack_budget",
+            "C01_analyzeTrack_budget", "C01_optimize_terminates_partial"]
 LEVEL = "proof"
 STREAM = "opt.final"
 CHUNK = 150
@@ -19,15 +23,22 @@ CASE_SECONDS = 20
 TECHNIQUE = "Lean 4 proof of rewrite soundness (loop folding and subroutine extraction preserve the structural expansion) + spec expander applied to the real optimiser's output"
 LEVEL_TEXT = ("see lean/Ctrmml/Properties/C01.lean: rewrite soundness over Spec/Expand (layer 1) and, for the executable model of the whole optimiser (Model/Optimizer.lean), "
               "C01_optimize_preserves: every normal return with a validating result preserves what every original track plays (layers 2-3: find_match_length / find_match / apply_match / "
-              "find_subroutines perform only the proven-sound rewrites, up to LOOP_BREAK params); NOT proved: termination (C01_optimize_terminates_statement, only the loop-fold half of the "
-              "measure argument) and that the stack analysis keeps the result within the depth limit (D18); every generated valid song is run "
+              "find_subroutines perform only the proven-sound rewrites, up to LOOP_BREAK params); termination: C01_pass_decreases (every pass after which the pass loop goes on strictly "
+              "decreases (number of events, number of non-bracket events): a loop fold by C01_fold_pass_decreases, a subroutine extraction by C01_extract_pass_decreases - find_subroutines "
+              "replaces at least one of the occurrences find_match counted), C01_analyzeStack_budget (the recursion of analyze_track is bounded by 1 + number of tracks) and "
+              "C01_optimize_terminates_partial (the run never ends in OErr.fuel for fuel above (events+1)^2; extra hypotheses: input tracks validate, JUMP/NOTE params are int16_t values, "
+              "initialSubId + number of events < 32767); NOT proved: termination without the bound on the number of events (sub_id wrap, C01_optimize_terminates_statement) and that the stack "
+              "analysis keeps the result within the depth limit (D18); every generated valid song is run "
               "through the REAL optimiser and the spec expander (perf) compares, for every original track, the played events with durations, the total length and the loop-point time "
-              "before and after, and requires normal termination and a validating result, for aggressiveness thresholds 0..10.")
+              "before and after, and requires normal termination (per-case timeout) and a validating result, for aggressiveness thresholds 0..10.")
 LEVEL_NOTE = ("Trusted: Lean kernel; Spec/Tree + Spec/Expand (meaning of loops/breaks/calls, shared with C04 where the real player is proved/tested to refine it); harness. The model of the "
               "optimiser is tied to src/optimizer.cpp by the differential stream (same song and passes on every generated case); hypotheses of C01_optimize_preserves: distinct sorted track ids "
-              "< 32767, no explicit END event, LOOP_BREAKs without duration, tracks < 32767 events, subroutine ids stay below 32768.")
-RULE = ("motif-repetition songs (A^k, A^k A[0..j), motifs with nested loops, breaks and calls, loop point at any depth-0 position, 1..4 channel tracks sharing motifs, tracks > 15) "
-        "x min_score in {0,1,3,5,10} (all of 0..10 thorough) + all tracks over a 4-symbol alphabet up to length 6 (8 thorough); non-trivial = optimiser changed the song; distinct by request")
+              "< 32767, no explicit END event, LOOP_BREAKs without duration, tracks < 32767 events, subroutine ids stay below 32768; of C01_optimize_terminates_partial additionally: min_score >= 0 "
+              "(for a negative threshold the pass loop does not end: a pass with score 0 changes nothing), int16_t call params (the model keeps params as unbounded Int: "
+              "Ex2.analyzeStack_fuel_artefact), initialSubId + events < 32767.  That an intermediate song exceeds the depth limit (D18) is decided per case by the oracle.")
+RULE = ("motif-repetition songs (A^k, A^k A[0..j), motifs with nested loops, breaks (also two breaks in one loop) and calls, loop point at any depth-0 position, 1..4 channel tracks sharing "
+        "motifs, tracks > 15, existing tracks >= 15000 (called or not)) + straddle family (a phrase and its repetition on the two sides of a break, loop bracket, loop point or call) "
+        "x min_score in 0..10 + all tracks over a 4-symbol alphabet up to length 6 (8 thorough); non-trivial = optimiser changed the song; distinct by request")
 EXPLANATION = "spec expander on the real optimiser's output vs on its input"
 ASSUMPTIONS = ["input songs validate (checked by the spec before judging)"]
 
@@ -86,7 +97,71 @@ def motif_song(rng, T):
         song[sid] = g.seq(1, False, False, n=rng.randrange(1, 4))
     if rng.random() < 0.25:
         song[rng.choice([20, 32, 200])] = rng.choice(motifs) * 2
+    if rng.random() < 0.15:
+        # an existing track at or above the optimiser's first subroutine id (D3), called or not
+        hid = rng.choice([15000, 15001, 15007, 20000, 32000])
+        song[hid] = rng.choice(motifs) * rng.choice([1, 2])
+        if rng.random() < 0.5:
+            t = rng.randrange(ntr)
+            song[t] = song[t] + [g.ev("JUMP", hid)]
     return song
+
+
+def straddle_cases(T, tier):
+    N = lambda k, d=12: (T["NOTE"], 36 + k, d, 0)
+    LS, LB, SG = (T["LOOP_START"], 0, 0, 0), (T["LOOP_BREAK"], 0, 0, 0), (T["SEGNO"], 0, 0, 0)
+    LE = lambda c: (T["LOOP_END"], c, 0, 0)
+    J = (T["JUMP"], 100, 0, 0)
+    sub = {100: [N(9), N(10)]}
+    lens = [3, 4] if tier == "quick" else [2, 3, 4, 5, 7]
+    for ln in lens:
+        A = [N(k) for k in range(ln)]
+        x, y = [N(7)], [N(8)]
+        for cnt in (2, 3):
+            shapes = {
+                # the phrase before a break repeated right after it, inside the same loop
+                "brk-A/A": [LS] + A + [LB] + A + [LE(cnt)],
+                "brk-A/Ax": [LS] + A + [LB] + A + x + [LE(cnt)],
+                "brk-xA/A": [LS] + x + A + [LB] + A + [LE(cnt)],
+                "brk-AA/A": [LS] + A + A + [LB] + A + [LE(cnt)],
+                "brk-A/AA": [LS] + A + [LB] + A + A + [LE(cnt)],
+                "brk-A/A-then-A": [LS] + A + [LB] + A + [LE(cnt)] + A,
+                # two breaks
+                "brk2-A/A/A": [LS] + A + [LB] + A + [LB] + A + [LE(cnt)],
+                # across loop brackets
+                "ls-A[A": A + [LS] + A + x + [LE(cnt)],
+                "ls-A[Ax]A": A + [LS] + A + [LE(cnt)] + A,
+                "le-[xA]A": [LS] + x + A + [LE(cnt)] + A,
+                "le-[A]A": [LS] + A + [LE(cnt)] + A + A,
+                "nest-[A[A]A]": [LS] + A + [LS] + A + [LE(2)] + A + [LE(cnt)],
+                "nest-brk-[A/[A/A]A]": [LS] + A + [LB] + [LS] + A + [LB] + A + [LE(2)] + A + [LE(cnt)],
+                # across the loop point and across a call
+                "segno-A|A": A + [SG] + A,
+                "segno-AA|AA": A + A + [SG] + A + A,
+                "segno-xA|Ay": x + A + [SG] + A + y,
+                "call-A*A": A + [J] + A,
+                "call-A*A*A": A + [J] + A + [J] + A,
+            }
+            for name, evs in shapes.items():
+                song = {0: evs}
+                if J in evs:
+                    song.update(sub)
+                for score in (0, 1, 10):
+                    yield Case("opt %d %s" % (score, songgen.render(song)), ("straddle", name.split("-")[0]), "straddle")
+
+
+def has_break2(flat, T):
+    """two LOOP_BREAKs directly in one loop body (the `[a / b / c]2` shape)"""
+    stack = []
+    for e in flat:
+        if e[0] == T["LOOP_START"]:
+            stack.append(0)
+        elif e[0] == T["LOOP_END"]:
+            if stack and stack.pop() >= 2:
+                return True
+        elif e[0] == T["LOOP_BREAK"] and stack:
+            stack[-1] += 1
+    return False
 
 
 def cases(rng, tier):
@@ -102,8 +177,13 @@ def cases(rng, tier):
                 continue   # symmetry: first symbol fixed
             evs = [alpha[i] for i in seq]
             yield Case("opt 0 " + songgen.render({0: evs}), ("exhaustive",), "exhaustive")
+    # repeats that straddle a structural marker: a phrase and its repetition on the two sides of a
+    # break, a loop bracket, the loop point or a call, in every loop context that keeps the song
+    # valid.  The optimiser must not fold or extract across the marker.
+    for c in straddle_cases(T, tier):
+        yield c
     n = 500 if tier == "quick" else 8000
-    scores = [0, 1, 3, 5, 10] if tier == "quick" else list(range(11))
+    scores = list(range(11))
     made = 0
     while made < n:
         song = motif_song(rng, T)
@@ -117,6 +197,8 @@ def cases(rng, tier):
         if T["JUMP"] in types: tags.add("call")
         if T["SEGNO"] in types: tags.add("segno")
         if len([t for t in song if t < 16]) > 1: tags.add("multi-track")
+        if any(t >= 15000 for t in song): tags.add("track>=15000")
+        if has_break2(flat, T): tags.add("break2")
         made += 1
         yield Case("opt %d %s" % (rng.choice(scores), songgen.render(song)), sorted(tags), "motif")
 
